@@ -1,7 +1,7 @@
 (* C10: the theorems in their final form. *)
 From Coq Require Import Permutation.
 From SC Require Import Lib.Prelude Lib.Int Lib.Host Model.Nft Run.NftCommon Proofs.NftMaps Proofs.NftFrame
-  Proofs.NftInv Proofs.NftCons Proofs.NftOwn Proofs.NftSim Proofs.NftCard Proofs.NftEnum Run.C10 Proofs.C10Card
+  Proofs.NftInv Proofs.NftCons Proofs.NftOwn Proofs.NftSim Proofs.NftScope Proofs.NftCard Proofs.NftEnum Run.C10 Proofs.C10Card
   Proofs.C10Sim Proofs.C10Live Proofs.C10Monitor.
 Local Open Scope N_scope.
 
@@ -320,4 +320,59 @@ Proof.
   pose proof (run_sg_sim10 fl c cs _ _ (sim10_init fl now0) Hf) as Hs. rewrite run_sg_state in Hs.
   eapply owner_burn_progress; [exact Hs | apply has_auth_of_In; exact Ha |].
   rewrite <- (own_of fl c _ _ (proj2 (proj1 Hs))). exact Ho.
+Qed.
+
+(* ---------- further pinned facts ---------- *)
+Theorem move_names_owner fl c s cl s' r : exec fl c s cl = Ok (s', r) ->
+  match cl with
+  | Transfer _ from _ id | TransferFrom _ _ from _ id | Burn _ from id | BurnFrom _ _ from id =>
+      owner_of fl c s id = Some from /\ r = None
+  | _ => True
+  end.
+Proof.
+  intros H. apply exec_ok in H. destruct cl; cbn [exec_spec] in H; try exact I.
+  - destruct H as (_&A&B&_). auto.
+  - destruct H as (_&_&A&B&_). auto.
+  - destruct H as (_&A&B&_). auto.
+  - destruct H as (_&_&A&B&_). auto.
+Qed.
+
+Theorem batch_mint_accepted c s to amt :
+  1 <= amt -> amt <= max_batch c -> next_id s + amt <= MAXU32N -> balance s to + amt <= MAXU32N ->
+  exists s', exec FCons c s (BatchMint to amt) = Ok (s', Some (next_id s + amt - 1)).
+Proof. apply batch_mint_progress. Qed.
+
+Lemma spender_check_model s sp from id :
+  (sp = from \/ get_approved s id = Some sp \/ is_approved_for_all s from sp = true) ->
+  check_spender_approval s sp from id = Ok tt.
+Proof.
+  intros H. unfold check_spender_approval. apply guard_true.
+  destruct H as [->|[H|H]].
+  - rewrite N.eqb_refl. reflexivity.
+  - rewrite H. cbn [oaddr_eqb]. rewrite N.eqb_refl, orb_true_r. reflexivity.
+  - rewrite H. apply orb_true_r.
+Qed.
+
+Theorem spender_can_transfer fl c now0 cs auths sp from to id :
+  fresh_run fl c (init now0) cs = true ->
+  let s := run fl c (init now0) cs in
+  owner_of fl c s id = Some from -> In sp auths ->
+  (sp = from \/ get_approved s id = Some sp \/ is_approved_for_all s from sp = true) ->
+  balance s to + 1 <= MAXU32N ->
+  exists s', exec fl c s (TransferFrom auths sp from to id) = Ok (s', None).
+Proof.
+  intros Hf. cbv zeta. intros Ho Ha Hsp Hroom.
+  rewrite (transfer_from_as_transfer fl c _ auths sp from to id (has_auth_of_In _ _ Ha) (spender_check_model _ _ _ _ Hsp)).
+  apply (owner_can_transfer fl c now0 cs [from] from to id Hf Ho); [left; reflexivity | exact Hroom].
+Qed.
+Theorem spender_can_burn fl c now0 cs auths sp from id :
+  fresh_run fl c (init now0) cs = true ->
+  let s := run fl c (init now0) cs in
+  owner_of fl c s id = Some from -> In sp auths ->
+  (sp = from \/ get_approved s id = Some sp \/ is_approved_for_all s from sp = true) ->
+  exists s', exec fl c s (BurnFrom auths sp from id) = Ok (s', None).
+Proof.
+  intros Hf. cbv zeta. intros Ho Ha Hsp.
+  rewrite (burn_from_as_burn fl c _ auths sp from id (has_auth_of_In _ _ Ha) (spender_check_model _ _ _ _ Hsp)).
+  apply (owner_can_burn fl c now0 cs [from] from id Hf Ho). left; reflexivity.
 Qed.
